@@ -92,9 +92,9 @@ def decorate(rng, c, depth=0):
             if tv:
                 val = rng.choice([b"e", b"w", b"1", b"e1,e2", b"v", b""])
             elif a.get("action") in ("settrue", "setfalse"):
-                val = rng.choice([b"true", b"false", b"true", b"false", b"yes", b""])
+                val = rng.choice([b"true", b"false"] * 6 + [b"yes", b""])
             else:
-                val = rng.choice([b"3", b"0", b"255", b"256", b"x"])
+                val = rng.choice([b"3", b"0", b"255", b"1"] * 3 + [b"256", b"x"])
             a["env"] = (name.encode(), None if rng.random() < 0.3 else val)
         elif r < 0.7:
             a.pop("env", None)
@@ -106,7 +106,7 @@ def decorate(rng, c, depth=0):
 
 
 PROFILE = dict(defaults=0.7, env=0.6, hyphen=0, tva=0.03, last=0.04, terminators=0.05, invalid=0.01, infer=0.05,
-               external=0.04, flag_subs=0.12, low_index=0.03, relations=0.3, groups=0.4, globals=0.3,
+               external=0.04, flag_subs=0.12, low_index=0.03, relations=0.12, groups=0.3, globals=0.3,
                ignore_errors=0.04, settings=0.1, max_opts=5, max_pos=2, typed=0.12)
 
 
@@ -299,6 +299,8 @@ def chain_levels(cmd, lv):
     cur = cmd
     inherited = []
     for ents, subname in lv:
+        if any(e["id"] == b"" for e in ents):
+            break           # the matches of an external subcommand (Id::EXTERNAL = ""), not a level of the tree
         own_ids = {a["id"] for a in cur["args"]}
         eff = list(cur["args"]) + [a for a in inherited if a["id"] not in own_ids]
         out.append((cur, eff, ents))
@@ -376,12 +378,12 @@ def mentions(a, toks):
 
 
 # ====================================================================== oracle
-def expected_default(a, eff, ents_by_id, order):
+def expected_default(a, eff, ents_by_id, order, global_ids=()):
     """what the defaults phase gives an argument that is absent after command line and environment,
     read from the documentation: the first `default_value_if` whose condition holds decides (None = no
     default at all), otherwise the plain default.  Returns ('exact', values|None) or ('any', candidates)."""
     plain = a.get("default") or IMPLICIT_DEFAULT.get(a.get("action"))
-    globals_here = {b["id"] for b in eff if "global" in b["flags"]}
+    globals_here = {b["id"] for b in eff if "global" in b["flags"]} | set(global_ids)
     exact = True
     for tgt, pred, d in a.get("difs", []):
         e = ents_by_id.get(tgt)
@@ -480,6 +482,7 @@ def check_levels(cmd, argv, m, present):
             sub_names.update(n for n, _ in s.get("aliases", []))
     sub_names.add(b"help")
     full_chain = len(chain) == len(lv)
+    global_ids = {b["id"] for _, eff2, _ in chain for b in eff2 if "global" in b["flags"]}
     for k, (c, eff, ents) in enumerate(chain):
         by_id = {e["id"]: e for e in ents}
         order = [a["id"] for a in eff]
@@ -493,9 +496,22 @@ def check_levels(cmd, argv, m, present):
             if not unknown and present[k] != any_explicit:
                 return "%s: args_present() is %s but the explicit (command-line/environment) entries are %s" % (
                     where, present[k], [e["id"] for e in ents if e["src"] in ("cmdline", "env")])
+        # the same id defined differently at another reached level with one of the two definitions global:
+        # clap copies global values between the levels by id, so what this level reports for that id
+        # may be about the other definition
+        def collides(a):
+            for j, (_, eff2, _) in enumerate(chain):
+                if j == k:
+                    continue
+                for b in eff2:
+                    if b["id"] == a["id"] and b is not a and ("global" in b["flags"] or "global" in a["flags"]):
+                        return True
+            return False
         for a in eff:
             e = by_id.get(a["id"])
             if e is not None and e["src"] == "?":
+                continue
+            if collides(a):
                 continue
             is_global = "global" in a["flags"]
             env_val = a["env"][1] if a.get("env") else None
@@ -513,7 +529,7 @@ def check_levels(cmd, argv, m, present):
             if e is not None and e["src"] == "default":
                 if env_val is not None:
                     return "%s: %s reports DefaultValue although its environment variable is set (%r)" % (where, name, env_val)
-                mode, exp = expected_default(a, eff, by_id, order)
+                mode, exp = expected_default(a, eff, by_id, order, global_ids)
                 if is_global and mode == "exact":
                     mode, exp = "any", [exp] + [split_vals(a, [d]) for _, _, d in a.get("difs", []) if d is not None] + \
                         ([split_vals(a, a.get("default") or IMPLICIT_DEFAULT.get(a.get("action")))] if (a.get("default") or IMPLICIT_DEFAULT.get(a.get("action"))) else [])
@@ -527,7 +543,7 @@ def check_levels(cmd, argv, m, present):
             if e is None:
                 if env_val is not None:
                     return "%s: %s is absent although its environment variable is set (%r)" % (where, name, env_val)
-                mode, exp = expected_default(a, eff, by_id, order)
+                mode, exp = expected_default(a, eff, by_id, order, global_ids)
                 if not is_global and mode == "exact" and exp is not None:
                     return "%s: %s is absent although its defaults give %r" % (where, name, exp)
                 if mode == "any" and None not in exp and not is_global:
@@ -559,6 +575,8 @@ def oracle(case, impl):
     if p["kind"] != "ok":
         return None
     cmd, _, argv = decode(case)
+    if any("ignore_errors" in c["settings"] for c in all_cmds(cmd)):
+        return None     # an Ok under ignore_errors is a swallowed error: partial entries, out of scope here
     return check_levels(cmd, argv, p["m"], present)
 
 
@@ -590,8 +608,8 @@ def pair_oracle(case, impl):
         return "declaring defaults turned Ok into %s: a value that came from a default triggered a relation" % ka
     if ka is None:
         # explicit entries (ids, sources, values) are the same with and without defaults
-        ea = [[(e["id"], e["src"], e["occ"]) for e in ents if e["src"] in ("cmdline", "env", "?")] for ents, _ in levels(pa["m"])]
-        eb = [[(e["id"], e["src"], e["occ"]) for e in ents if e["src"] in ("cmdline", "env", "?")] for ents, _ in levels(pb["m"])]
+        ea = [sorted((e["id"], e["src"], e["occ"]) for e in ents if e["src"] in ("cmdline", "env")) for ents, _ in levels(pa["m"])]
+        eb = [sorted((e["id"], e["src"], e["occ"]) for e in ents if e["src"] in ("cmdline", "env")) for ents, _ in levels(pb["m"])]
         if ea != eb:
             return "declaring defaults changed the explicit entries: %r vs %r" % (ea, eb)
     return None
@@ -613,7 +631,7 @@ def project(r):
         return "ok " + " ".join(out) + " present=" + str(present)
     if p["kind"] == "err":
         k = p["ekind"]
-        return "err " + (k if "|" not in k else "unknown-token")
+        return "err " + ("unknown-token" if ("|" in k or k in ("UnknownArgument", "InvalidSubcommand")) else k)
     if p["kind"] == "panic":
         return "PANIC"
     return res
